@@ -92,7 +92,14 @@ def get_facts(config="default", repo=None):
             info["cached"] = False
             info["extract_s"] = round(time.time() - t0, 2)
             # keep the cache small
-            ents = sorted((os.path.getmtime(os.path.join(CACHE, f)), f) for f in os.listdir(CACHE) if f.endswith(".json"))
+            ents = []
+            for f in os.listdir(CACHE):
+                if f.endswith(".json"):
+                    try:
+                        ents.append((os.path.getmtime(os.path.join(CACHE, f)), f))
+                    except OSError:
+                        pass
+            ents.sort()
             for _, f in ents[:-40]:
                 try:
                     os.remove(os.path.join(CACHE, f))
